@@ -690,10 +690,16 @@ func (P *Program) modExprKeys(fn *ssa.Function, ct *Contract, e *Expr) []string 
 	case "call":
 		switch e.Name {
 		case "sent":
+			if len(e.Args) == 1 && e.Args[0].Kind == "str" {
+				return []string{ghSent + ":" + e.Args[0].Lit}
+			}
 			return []string{ghSent, ghLast}
 		case "closed":
 			return []string{ghClosed}
 		case "recvd":
+			if len(e.Args) == 1 && e.Args[0].Kind == "str" {
+				return []string{ghRecvd + ":" + e.Args[0].Lit}
+			}
 			return []string{ghRecvd}
 		case "cancelled":
 			return []string{ghCancelled}
